@@ -131,7 +131,7 @@ func renderCToksAt(tt []CTok, base int) ([]byte, []int) {
 	return renderCToks(tt)
 }
 
-func runTokProject(p tokProject) string {
+func runTokProject(p tokProject, banned ...directive.Enumeration) string {
 	dir, err := os.MkdirTemp(scratchBase(), "jsvinc")
 	if err != nil {
 		return "other: scratch"
@@ -156,11 +156,17 @@ func runTokProject(p tokProject) string {
 	return safely(func() string {
 		rootPath := filepath.Join(dir, fmt.Sprintf("f%d.jst", p.root))
 		content, _ := os.ReadFile(rootPath)
-		c := core.NewJApiCore(fs.NewFile(rootPath, content))
+		var oo []core.Option
+		if len(banned) > 0 {
+			oo = append(oo, core.WithBannedDirectives(banned...))
+		}
+		c := core.NewJApiCore(fs.NewFile(rootPath, content), oo...)
 		if je := c.VerifScanOnly(); je != nil {
 			id := idAt(je.VerifFile(), uint(je.Index()))
 			m := je.Msg
 			switch {
+			case strings.HasPrefix(m, "directive not allowed"):
+				return fmt.Sprintf("err banned %d", id)
 			case strings.Contains(m, "isn't exists"):
 				return fmt.Sprintf("err inc missing %d", id)
 			case strings.Contains(m, "is a directory"):
@@ -195,4 +201,34 @@ func includeCorrespondence(ctx *Ctx, r *Rng, n int) {
 		impl = append(impl, got)
 	}
 	Corr(ctx, "multi-file scan phase (INCLUDE splice, cycle / missing / directory / JSIGHT / bad name) vs Model.Include.scanProject", "jsight-ctx", reqs, func(i int) string { return impl[i] })
+}
+
+// includeBanCorrespondence: the same projects with random sets of banned directive kinds (INCLUDE among them):
+// where the project is refused, and that nothing behind a banned INCLUDE matters.
+func includeBanCorrespondence(ctx *Ctx, r *Rng, n int) {
+	var reqs, impl []string
+	for k := 0; k < n; k++ {
+		p := genTokProject(r)
+		var bans []directive.Enumeration
+		var bs []string
+		for _, e := range []directive.Enumeration{directive.Include, directive.URL, directive.Get, directive.Type, directive.Macro, directive.Paste, directive.HTTPResponseCode, directive.Info, directive.Jsight, directive.Description} {
+			if r.Chance(1, 5) {
+				bans = append(bans, e)
+				bs = append(bs, fmt.Sprint(int(e)))
+			}
+		}
+		if len(bans) == 0 {
+			bans = []directive.Enumeration{directive.Include}
+			bs = []string{fmt.Sprint(int(directive.Include))}
+		}
+		got := runTokProject(p, bans...)
+		if strings.HasPrefix(got, "other") {
+			ctx.Cov.Hit("token project outside the model: " + firstWords(got, 4))
+			continue
+		}
+		ctx.Cov.Hit("banned project: " + firstWords(got, 2))
+		reqs = append(reqs, "projectb "+strings.Join(bs, ",")+" "+p.proto())
+		impl = append(impl, got)
+	}
+	Corr(ctx, "multi-file scan phase with banned directive kinds vs Model.IncludeBans.scanProjectB", "jsight-ctx", reqs, func(i int) string { return impl[i] })
 }
